@@ -258,7 +258,7 @@ PROP = {
         {"name": "c18.kitchen", "spec": False},    # 10,001 years
         {"name": "c18.wf"},                        # verdict per pair / spirit / year: K (model) and S (spec)
     ],
-    "ops": c18_ops,
+    "ops": with_extra(c18_ops, objhist=(0, 1)),
     "extra_checks": [c18_rawwf, c18_leanchecker_facts],
     "exhaustive": True,
     "rule": "streams enumerate the complete finite domains: c18.gods/c18.daytaboo/c18.hourtaboo = all 3,600 pillar pairs each (the 720 branch x pillar "
